@@ -122,6 +122,22 @@ def np_stats(self, e, st, spec):
 
 Engine.MODELS.append(np_stats)
 
+_prev_spec_call_np = Engine.spec_call
+
+
+def spec_call_np(self, name, e, st):
+    if name == "npstd":
+        # npstd(values, n): the ghost function standing for np.std of the first n values (np.std is a library function: only its
+        # arguments are pinned, and std >= 0)
+        a = self.ev(e.args[0], st, True)
+        n = self.ev(e.args[1], st, True)
+        a = a.data if isinstance(a, Arr) else a
+        return z3.Function("npstd", AR, I, R)(a, n)
+    return _prev_spec_call_np(self, name, e, st)
+
+
+Engine.spec_call = spec_call_np
+
 
 def fancy_index(self, base, ids, st, spec, e):
     if not (isinstance(ids, Arr) and ids.rank == 1 and V.is_int_dtype(ids.dtype)):
